@@ -25,6 +25,7 @@ CONSTANTS
   Labels = {labels}
   MaxUnits = {maxunits}
   MaxDepth = {depth}
+  WithMany = {many}
 CONSTRAINT Bound
 """
 PROPS = """INVARIANT HeapWellFormed
@@ -54,8 +55,8 @@ CONCRETE = [
 ]
 
 
-UNIV_A = {"times": "{0, 1, 2}", "labels": "{0, 1, 2}", "ntimes": 3}      # three labels incl. none
-UNIV_B = {"times": "{0, 1, 2, 3}", "labels": "{0, 1}", "ntimes": 4}       # nested segments possible
+UNIV_A = {"times": "{0, 1, 2}", "labels": "{0, 1, 2}", "ntimes": 3, "many": "TRUE"}      # three labels incl. none
+UNIV_B = {"times": "{0, 1, 2, 3}", "labels": "{0, 1}", "ntimes": 4, "many": "TRUE"}       # nested segments possible
 
 
 def l1(rep, depth, univ, maxunits=3):
@@ -127,18 +128,22 @@ def abstract_heap(objs, nobj, inv):
 
 def l2(rep, pa, depth, univ, maxunits=3, concretes=CONCRETE):
     cfg = MC_CONST.format(emit="TRUE", mutant="none", depth=depth, maxunits=maxunits, **univ)
-    res = tlc.run("MC_Continuum", cfg, label=f"edges depth<={depth}", workers=16, timeout=1500, coverage=False,
-                  heap="8g")
-    tlc.require(res)
-    rep.add_tlc(res)
     groups = {}      # src key -> {(op, args) -> set of (dst key, out)}
-    for e in res.printed:
+    first = []
+
+    def collect(e):
         if "src" not in e:
-            continue
+            return
+        if not first:
+            first.append(e)
         src = _key([_canon(c) for c in e["src"]])
         dst = [_canon(c) for c in e["dst"]]
         args = tuple(tuple(sorted(map(tuple, a))) if isinstance(a, list) else a for a in e["args"])
         groups.setdefault(src, {}).setdefault((e["op"], args), set()).add((_key(dst), e["out"]))
+    res = tlc.run("MC_Continuum", cfg, label=f"edges depth<={depth}", workers=16, timeout=3000, coverage=False,
+                  heap="8g", on_print=collect)
+    tlc.require(res)
+    rep.add_tlc(res)
     if not groups:
         raise MachineryError("TLC emitted no edges")
     nobj = 2
@@ -176,7 +181,7 @@ def l2(rep, pa, depth, univ, maxunits=3, concretes=CONCRETE):
     rep.traces += n_edges
     rep.extra["l2_transitions_replayed"] = rep.extra.get("l2_transitions_replayed", 0) + n_edges
     rep.extra["l2_states_visited"] = rep.extra.get("l2_states_visited", 0) + n_nodes
-    rep.sample({"layer": "L2", "example_edge": next(iter(res.printed), None)})
+    rep.sample({"layer": "L2", "example_edge": first[0] if first else None})
 
 
 def _concrete_args(op, args, conc):
@@ -225,13 +230,14 @@ def run(tier, rep):
     if tier == "quick":
         l1(rep, 5, UNIV_A)
         l1(rep, 4, UNIV_B)
-        l2(rep, pa, 4, UNIV_A, concretes=CONCRETE[1:])
-        l2(rep, pa, 4, UNIV_B, concretes=CONCRETE[:1])
+        l2(rep, pa, 4, dict(UNIV_A, many="FALSE"), concretes=CONCRETE[1:])
+        l2(rep, pa, 3, UNIV_B, concretes=CONCRETE[:1])
         l3(rep, pa, n_traces=150, length=40)
     else:
         l1(rep, 6, UNIV_A)
         l1(rep, 5, UNIV_B)
-        l2(rep, pa, 5, UNIV_A)
+        l2(rep, pa, 5, dict(UNIV_A, many="FALSE"), concretes=CONCRETE[:1])    # depth 5 without whole-object adds (size)
+        l2(rep, pa, 4, UNIV_A, concretes=CONCRETE[1:])
         l2(rep, pa, 4, UNIV_B)
         l3(rep, pa, n_traces=3000, length=60)
     rep.exhaustive = False
